@@ -76,7 +76,7 @@ PKG_SCOPE = "model files of the package are hand-written transcriptions tied by 
 
 prop(
     "C03",
-    ["LolHtml.Thm.C03_Sim", "LolHtml.Thm.C03_Ref"],
+    ["LolHtml.Thm.C03_Sim", "LolHtml.Thm.C03_Ref", "LolHtml.Thm.C03_Strict", "LolHtml.Thm.C03_Trace"],
     [{"lane": "hash", "n_quick": 3000, "n_thorough": 40000},
      {"lane": "lex", "n_quick": 3000, "n_thorough": 100000},
      {"lane": "h5", "n_quick": 3000, "n_thorough": 60000, "impl_only": True}],
@@ -84,6 +84,7 @@ prop(
     + LEX_RULE,
     ["the real WHATWG tree builder is NOT modelled: the expected namespaces / text types are the author's reading of WHATWG 13.2.6, validated on witnesses against html5ever (lane nsprobe), not proved",
      "Ref tables (lean/LolHtml/Ref/Tags.lean) are hand-reviewed against the standard",
+     "C03_parser_sim_trace is for pure lexer-mode runs (mixed scanner/lexer runs split the simulator step across the two machines: C06) and excludes runs dying in the three debug assertions of handle_tree_builder_feedback; the strict theorems need the table side-condition EmitsChecked (`?` on emit_tag / finish_tag_name), decided on the generated table",
      MODEL_SCOPE],
     level_text=("Lean 4 theorems over the translated tag tables and the simulator model: generated tables = reviewed reference "
                 "(C03_tags_match_reference, kernel decide), every table hash is the hash of its name and hash equality is name "
@@ -92,7 +93,15 @@ prop(
                 "the tokenizer table regenerated from the DSL resolves, for every state, closing-quote value, last/non-last chunk and all 257 input classes, to the same arm (calls, ? flags, condition, target, look-ahead sequences, enter actions) as a reference table transcribed from WHATWG 13.2.5 with nine documented shape deviations (C03_table_matches_reference, 24 kernel decide steps + a soundness lemma; insensitive to arm order / #[inline] / numbering); simulator invariants for all tag sequences (stack never empty, cdata flag = foreign namespace, strict run = "
                 "non-strict run when accepted), and the expected namespace at every tag of every derivation of a well-nested "
                 "foreign-content grammar (C03_foreign_grammar, C03_foreign_doc), with proved counter-examples for the grammar's "
-                "side conditions. PARTIAL: equality with a real tree builder on tag soup is not a theorem."),
+                "side conditions. At stream level (whole model: parser + dispatcher + transform stream + rewriter, any controller, "
+                "any chunking): a strict run in which every call succeeds equals the non-strict run — results, sink log, "
+                "dispatcher and controller state (C03_strict_eq_nonstrict_stream); a strict call that fails with ParsingAmbiguity "
+                "does so exactly because the guard refuses a text-switching start tag in select / template-in-select / frameset "
+                "context, otherwise the same call fails identically in non-strict mode (C03_strict_fails_only_on_guard), and a "
+                "non-strict stream never reports ambiguity (C03_nonstrict_no_ambiguity); in lexer mode the parser's simulator is "
+                "Sim.run over the emitted lexemes' events and every start tag is stamped with its trace entry's namespace "
+                "(C03_parser_sim_trace, C03_lexer_stamps_expected carries the grammar theorem to the parser). "
+                "PARTIAL: equality with a real tree builder on tag soup is not a theorem."),
     level_note=("Trusted: Lean kernel; translators; the reviewed Ref tables; the model of the simulator (tied by lanes lex/hash). "
                 "Not covered: the 23 insertion modes of the real tree builder (differential lane h5 against html5ever only); a "
                 "bisimulation 'equal resolution => equal runs' and formal lemmas for the nine shape deviations of the reference table."),
@@ -141,18 +150,24 @@ prop(
 
 prop(
     "C08",
-    ["LolHtml.Thm.C08_Escape"],
+    ["LolHtml.Thm.C08_Escape", "LolHtml.Thm.C08_Real", "LolHtml.Thm.C08_Codec"],
     [{"lane": "esc", "n_quick": 3000, "n_thorough": 30000}],
-    "lane esc: body text / attribute values / comment text / attribute names / tag names biased to <>&\"'-!/= whitespace NUL comment terminators non-BMP unmappable; utf-8 and x-user-defined",
-    ["theorems are for UTF-8 documents (identity codec); other encodings are exercised by the lane and the re-tokenising oracle only",
+    "lane esc: body text / attribute values / comment text / attribute names / tag names biased to <>&\"'-!/= whitespace NUL comment terminators non-BMP unmappable; utf-8 and x-user-defined; `attrseq` cases: two set_attribute calls with multi-byte names in Shift_JIS / Big5 / GBK / UTF-8 (encoded name verified against encoding_rs)",
+    ["encodings: the codec-generic theorems (C08_Codec) hold for every lawful codec in which a non-ASCII scalar never encodes to a byte below 0x40 (StructSafe: proved for UTF-8, windows-1252, iso-8859-7 and the toy two-byte codec; gb18030's digit trail bytes are outside it); the other encodings are exercised by the lane and the re-tokenising oracle",
+     "known finding F22: names are compared ASCII-case-insensitively on the ENCODED bytes (Shift_JIS/Big5/GBK trail bytes): duplicate attributes / debug_assert; C08_F22_counterexample",
      "escape maps, reject lists and closing sequences are re-extracted from the Rust text on every run (translate/consts2lean.py); 20 side-conditions by decide", PKG_SCOPE],
     level_text=("Lean 4 theorems on the generated constants: escaped body text contains no < > and only complete entities and "
                 "decodes back (C08_body_no_markup), is one data-state run (C08_body_text_run); attribute values contain no "
                 "double quote; set_text accepts iff the WHATWG comment machine ends exactly at the final --> (C08_comment_iff, "
                 "necessary and sufficient); accepted tag/attribute names read back whole and each rejected byte splits a name "
                 "(C08_tag_name_iff, C08_attr_name_*); an accepted attribute re-parses as exactly one attribute "
-                "(C08_attribute_reads_back); setters leave the token unchanged on error (C08_reject_unchanged_*)."),
-    level_note="Trusted: Lean kernel; consts translator; small specs of the WHATWG comment / tag-name / attribute states written for this package.",
+                "(C08_attribute_reads_back); setters leave the token unchanged on error (C08_reject_unchanged_*). ON THE REAL LEXER "
+                "MODEL (generated table, recording sink, any prefix and any following input): escaped text is exactly one text "
+                "lexeme (C08_text_real), an accepted tag name / attribute serialises to exactly one start-tag lexeme whose name "
+                "and value ranges hold exactly the given bytes (C08_tagname_real, C08_attr_real), accepted comment text gives "
+                "exactly one comment lexeme with text range = the text (C08_comment_real) and rejected text ends the comment "
+                "early (C08_comment_real_early); codec-generic versions for lawful structure-safe codecs (C08_*_codec)."),
+    level_note="Trusted: Lean kernel; consts + DSL translators; small specs of the WHATWG comment / tag-name / attribute states (round 1); the real-lexer theorems use the core model tied by lane lex.",
     technique="Lean 4 proof (list induction; decidable side-conditions on translated constants) + correspondence lane + re-tokenising oracle",
     design_ref="DESIGN.md section 4 C08",
 )
